@@ -914,8 +914,43 @@ def check(model, rep, tier):
 
   # ---------------------------------------------------------------- CALL-PARTIAL
   rec = [c for v in actions.values() for k, c in v if k == 'recurse']
-  if len(rec) != 1:
+  if not rec:
+    # no re-entry for the underlying callable: unwrapping in place is only the
+    # same thing when it happens before every policy test -- a rebinding of the
+    # callable that a policy test dominates leaves that test unapplied to what
+    # is finally converted
+    gp_ = pycfg.CFG(cc.node)
+    tg_ = [i for i in range(len(gp_.nodes)) if any(
+        core.dotted(c.func) == '_convert_actual' for c in pycfg.calls_at(gp_, i))]
+    if len(tg_) != 1:
+      raise core.AnalysisError('converted_call: conversion call not found')
+    dom_ = gp_.dominators(skip_labels=('exc',))
+    reb = [i for i, (k_, a_) in enumerate(gp_.nodes) if isinstance(a_, ast.Assign) and any(
+        isinstance(t_, ast.Name) and t_.id == fparams[0]
+        for t0 in a_.targets for t_ in ast.walk(t0))]
+    tests_ = [i for (i, lab) in gp_.mandatory_edges(tg_[0])
+              if isinstance(gp_.nodes[i][1], ast.expr)]
+    late = [i for i in reb if any(t_ in dom_.get(i, ()) for t_ in tests_)]
+    if not reb:
+      raise core.AnalysisError('converted_call: partial recursion not found')
+    rep.check(not late, 'CALL-PARTIAL', '%s:underlying-callable-goes-through-every-test'
+              % cc.site,
+              'a partial is unwrapped by rebinding the callable after policy tests '
+              'have already been passed: the cache / disabled-context / artifact / ... '
+              'rows are never evaluated for the underlying callable (re-enter '
+              'converted_call with f.func, or unwrap before the first test)',
+              {'rebinding_lines': [gp_.nodes[i][1].lineno for i in late]},
+              line=cc.node.lineno,
+              witness='functools.partial(do_not_convert(fn), 1) called from converted code')
+    if late:
+      rec = None
+  elif len(rec) != 1:
     raise core.AnalysisError('converted_call: partial recursion not found')
+  if rec is None:
+    # (reported above; the clauses below describe the recursive form)
+    raise core.AnalysisError('converted_call: no partial recursion to analyse')
+  if not rec:
+    raise core.AnalysisError('converted_call: partial handling not recognised')
   rc = rec[0]
   a1 = tpl.xnorm(cc, rc.args[1], rc) if len(rc.args) > 1 else None
   rep.check(a1 == 'f.args + args', 'CALL-PARTIAL', '%s:positional-order' % cc.site,
